@@ -99,6 +99,25 @@ REWRITES = [
 ]
 
 
+# `static __thread T x;` (function-local thread-local cache): cbmc's sequential mode keeps ONE instance of a thread-local object.  For the
+# two-thread call-granularity histories of C12 the library is compiled with -DVF_TLS_EMUL, which turns each such object into one slot per
+# emulated thread selected by the harness variable vf_tid; without the define the text is the original declaration.
+TLS_RX = re.compile(r"^([ \t]+)static __thread ([^;=\n]+?)\b(\w+)((?:\[[^\]\n]*\])*);[ \t]*$", re.M)
+TLS_PRELUDE = ("#ifdef VF_TLS_EMUL\nextern unsigned vf_tid;\n#define VF_NTHREADS 2\n#define VF_TLS(x) x##__tls[vf_tid]\n#else\n"
+               "#define VF_TLS(x) x\n#endif\n")
+
+
+def _tls_emulation(txt):
+    ms = list(TLS_RX.finditer(txt))
+    for m in reversed(ms):
+        ind, typ, name, dims = m.group(1), m.group(2).strip(), m.group(3), m.group(4)
+        end = txt.index("\n}", m.end())  # end of the enclosing function (the sources are clang-formatted)
+        body = re.sub(r"(?<![\w.])(?<!->)%s\b" % re.escape(name), "VF_TLS(%s)" % name, txt[m.end():end])
+        decl = "#ifdef VF_TLS_EMUL\n%sstatic %s %s__tls[VF_NTHREADS]%s;\n#else\n%sstatic __thread %s %s%s;\n#endif" % (ind, typ, name, dims, ind, typ, name, dims)
+        txt = txt[:m.start()] + decl + body + txt[end:]
+    return (TLS_PRELUDE + txt) if ms else txt
+
+
 ALIAS_RX = re.compile(r"EXPORT\s+(?P<ret>[\w\s\*]+?)\s*\b(?P<name>\w+)\s*\((?P<params>[^;{}]*?)\)\s*"
                       r"__attribute(?:__)?\(\(alias\(\"(?P<target>\w+)\"\)\)\);", re.S)
 
@@ -155,6 +174,10 @@ class Ctx:
             if new2 != new:
                 self.rewrites_applied.append("%s: %s" % (rel, why))
                 new = new2
+        new2 = _tls_emulation(new)
+        if new2 != new:
+            self.rewrites_applied.append("%s: function-local `static __thread` objects -> one slot per emulated thread under -DVF_TLS_EMUL (unchanged otherwise)" % rel)
+            new = new2
         new2 = ALIAS_RX.sub(_alias_to_forwarder, new)
         if new2 != new:
             self.rewrites_applied.append("%s: __attribute__((alias)) declaration -> forwarding definition" % rel)
@@ -311,6 +334,7 @@ class Ob:
         self.native_libs = native_libs  # sources for the native replay build (default: libs)
         self.extra_src = list(extra_src)  # generated C files (absolute paths) linked in
         self.inc = list(inc)  # extra include directories (e.g. the dumped tables)
+        self.probe_inputs = None  # optional generic replay inputs (list of 64-bit words) tried when the solver's own values do not reproduce natively
 
 
 class AlgOb(Ob):
@@ -344,6 +368,8 @@ class Res:
         self.replay = None  # dict describing the native replay
         self.known = None
         self.alg = None  # result dict of the algebraic analysis
+        self.replay_defs = None  # extra -D for the native confirmation (e.g. the two-thread ThreadSanitizer form of the harness)
+        self.replay_sanitizer = None  # "thread": confirm with ThreadSanitizer instead of AddressSanitizer
 
 
 CBMC_BASE = ["--no-malloc-may-fail", "--unwinding-assertions", "--drop-unused-functions",
@@ -481,9 +507,13 @@ def run_alg(ctx, ob, idx, binary, r, t0):
     if ob.unwindset:
         cmd += ["--unwindset", ob.unwindset]
     rc, o, e, w, to = run(cmd, timeout=timeout, mem_gb=ob.mem_gb)
-    if to or not os.path.exists(smt):
+    if to or rc != 0 or not os.path.exists(smt):
         r.status = "INCONCLUSIVE"
-        r.detail = "VC export failed or timed out: " + (o + e)[-400:]
+        r.detail = "VC export failed (rc=%s, memory limit %s GB) or timed out: " % (rc, ob.mem_gb) + (o + e)[-400:]
+        try:
+            os.remove(smt)
+        except OSError:
+            pass
         r.wall = time.time() - t0
         return r
     spec = {"smt2": smt, "analysis": ob.analysis, "params": ob.params, "name": ob.name, "scratch": d}
@@ -491,6 +521,8 @@ def run_alg(ctx, ob, idx, binary, r, t0):
     env["PYTHONPATH"] = os.path.join(VERIF, "tools")
     rc, o, e, w, to = run(["python3-vt", "-m", "vf.algrun"], timeout=timeout, mem_gb=max(ob.mem_gb, 16), env=env, stdin=json.dumps(spec))
     try:
+        if os.environ.get("VF_KEEP_SMT"):
+            shutil.copy(smt, os.environ["VF_KEEP_SMT"])
         os.remove(smt)
     except OSError:
         pass
@@ -513,6 +545,8 @@ def run_alg(ctx, ob, idx, binary, r, t0):
         r.status = "FAIL"
         r.failed = [("alg", out.get("detail", "")[:500], ob.analysis, "")]
         r.inputs = out.get("replay_inputs")
+        r.replay_defs = out.get("replay_defs")
+        r.replay_sanitizer = out.get("replay_sanitizer")
     else:
         r.status = "INCONCLUSIVE"
         r.detail = out.get("detail", "")[:1500]
@@ -542,14 +576,16 @@ def extract_inputs(txt):
 
 
 # ----------------------------------------------------------------------------- native replay
-def native_replay(ctx, ob, inputs, tag):
+def native_replay(ctx, ob, inputs, tag, extra_defs=None, sanitizer=None):
     """Rebuild the same harness natively (gcc, real immintrin.h, ASan) against the real sources of
     the working tree and run it on the counterexample inputs.  Returns (reproduced, text, path)."""
     d = ctx.scratch.sub("replay_" + tag)
     os.makedirs(os.path.join(OUT, "replay", ctx.prop), exist_ok=True)
     rpath = os.path.join(OUT, "replay", ctx.prop, re.sub(r"[^A-Za-z0-9_.=-]", "_", ob.name) + ".json")
-    rec = {"property": ctx.prop, "obligation": ob.name, "harness": ob.harness, "entry": ob.entry,
-           "defs": ob.defs, "libs": ob.libs, "libdefs": list(ob.libdefs), "inputs": [str(x) for x in (inputs or [])],
+    defs = dict(ob.defs)
+    defs.update(extra_defs or {})
+    rec = {"property": ctx.prop, "obligation": ob.name, "harness": ob.harness, "entry": ob.entry, "sanitizer": sanitizer or "address",
+           "defs": defs, "libs": ob.libs, "libdefs": list(ob.libdefs), "inputs": [str(x) for x in (inputs or [])],
            "native_libs": ob.native_libs, "extra_src_note": [os.path.basename(x) for x in ob.extra_src], "inc": ob.inc}
     with open(rpath, "w") as f:
         json.dump(rec, f, indent=1)
@@ -593,7 +629,7 @@ def native_archive(ctx, libdefs=(), sanitize=True):
             else:
                 cmd += ["-mfma", "-mavx", "-mavx2", "-mbmi2"]
             if sanitize and rel.endswith(".c"):
-                cmd += ["-fsanitize=address", "-fno-omit-frame-pointer"]
+                cmd += ["-fsanitize=" + ("thread" if sanitize == "thread" else "address"), "-fno-omit-frame-pointer"]
             jobs.append((rel, cmd))
             objs.append(o)
         with cf.ThreadPoolExecutor(max_workers=ctx.jobs) as ex:
@@ -612,13 +648,15 @@ def native_archive(ctx, libdefs=(), sanitize=True):
 def native_build(ctx, rec, d, extra_src=(), sanitize=True):
     exe = os.path.join(d, "replay.exe")
     try:
-        ar = native_archive(ctx, tuple(rec.get("libdefs", [])), sanitize)
+        ar = native_archive(ctx, tuple(rec.get("libdefs", [])), "thread" if rec.get("sanitizer") == "thread" else sanitize)
     except BuildError as ex:
         return None, str(ex)
     cmd = ["gcc", "-O1", "-g", "-DNDEBUG", "-DVF_NATIVE", "-mavx2", "-mfma", "-mbmi2", "-fno-strict-aliasing"] + CPU_HOOK + \
-          ["-I", HARNESS, "-I", SRC] + sum([["-I", i] for i in rec.get("inc", [])], [])
+          ["-pthread", "-I", HARNESS, "-I", SRC] + sum([["-I", i] for i in rec.get("inc", [])], [])
+    if rec.get("sanitizer") == "thread":
+        sanitize = "thread"
     if sanitize:
-        cmd += ["-fsanitize=address", "-fno-omit-frame-pointer"]
+        cmd += ["-fsanitize=" + ("thread" if sanitize == "thread" else "address"), "-fno-omit-frame-pointer"]
     cmd += defs_args(rec["defs"]) + ["-D" + x for x in rec.get("libdefs", [])]
     cmd += ["-DVF_ENTRY=" + rec["entry"], os.path.join(HARNESS, rec["harness"]),
             os.path.join(HARNESS, "native_main.c")] + list(extra_src) + [ar, "-o", exe, "-lm"]
@@ -629,6 +667,10 @@ def native_build(ctx, rec, d, extra_src=(), sanitize=True):
 
 
 def replay_record(ctx, rec, d, extra_src=()):
+    # stand-alone replays (./check Cxx --replay file): the table directory recorded at check time was scratch; dump the tables again
+    if any(not os.path.isdir(i) for i in rec.get("inc", [])):
+        rec = dict(rec)
+        rec["inc"] = [tables_dir(ctx, (1, 2, 4, 8, 16, 32, 64), (1, 2, 4, 8, 16, 32, 64))]
     exe, err = native_build(ctx, rec, d, extra_src)
     if exe is None:
         return None, err
@@ -644,7 +686,7 @@ def replay_record(ctx, rec, d, extra_src=()):
         return True, "native run did not terminate within 60 s (runaway loop)\n" + text
     if "VF_ASSUME_FAILED" in text:
         return None, "replay inputs violate a harness assumption (encoding mismatch)\n" + text
-    if rc != 0 or "VF_ASSERT_FAILED" in text or "AddressSanitizer" in text:
+    if rc != 0 or "VF_ASSERT_FAILED" in text or "AddressSanitizer" in text or "ThreadSanitizer: data race" in text:
         return True, text
     return False, text
 
@@ -726,7 +768,13 @@ def finish(ctx, results, meta, extra_results=()):
             if len(violations) >= MAX_REPLAYS:
                 more_failed.append(r)
                 continue
-            ok, text, rpath = native_replay(ctx, r.ob, r.inputs, "%d" % len(violations))
+            ok, text, rpath = native_replay(ctx, r.ob, r.inputs, "%d" % len(violations), r.replay_defs, r.replay_sanitizer)
+            if not ok and getattr(r.ob, "probe_inputs", None):
+                # the solver's input values may be degenerate for the native oracle (e.g. all-zero operands when the failing assertion is a
+                # harness-side contract check): retry on the obligation's generic probe vector before calling it an encoding mismatch
+                ok2, text2, rpath2 = native_replay(ctx, r.ob, r.ob.probe_inputs, "%dp" % len(violations), r.replay_defs, r.replay_sanitizer)
+                if ok2:
+                    ok, text, rpath = ok2, text2, rpath2
             r.replay = {"reproduced": ok, "path": rpath, "text": text[-1500:]}
             if ok:
                 n_fail += 1
